@@ -9,7 +9,7 @@ package tss
 // (kept by every writer in the module): a stored group / signing is filed under its own id, the counters are ordered.
 //@ func EndBlocker
 //@ may_panic calls
-//@ modifies Store_tss, Other, Bank
+//@ modifies Store_tss, Other, Bank, Count_OnGroupCreationCompleted, Count_OnGroupCreationFailed
 //@ requires keeper.wfGroups(Store_tss) && keeper.wfPending(Store_tss) && keeper.wfSignings(Store_tss)
 //@ requires forall g Int :: has(Store_tss, types.GroupStoreKey(g)) ==> keeper.groupAt(Store_tss, g).ID == g
 //@ ensures err == nil
@@ -18,3 +18,11 @@ package tss
 //@ loop 0: invariant keeper.wfPending(Store_tss)
 //@ loop 0: invariant keeper.wfSignings(Store_tss)
 //@ loop 0: invariant forall g Int :: has(Store_tss, types.GroupStoreKey(g)) ==> keeper.groupAt(Store_tss, g).ID == g
+
+// ---- C02 / C14: the module's ABCI entry point returns exactly what its blocker returned --------------------------------
+// (an error of the blocker must reach the SDK, which aborts the block; swallowing it would commit whatever the failed
+// blocker had already written - e.g. a fee share taken from the fee collector but only partly paid out)
+//@ func (am AppModule) EndBlock
+//@ may_panic calls
+//@ modifies *
+//@ forwards EndBlocker
